@@ -58,9 +58,19 @@ func genWriters(g *rng.Rand, W, B, nIDs int) ([][]corpus.Batch, []string, []stri
 	keys := []string{"k0", "k1", "k2"}
 	ver := 0
 	out := make([][]corpus.Batch, W)
+	// hot-key variant: very few ids and tiny batches, so that whole segments are
+	// obsoleted by the next batch (segments that die before they are persisted or merged)
+	hot := g.Chance(1, 3)
+	if hot && nIDs > 2 {
+		nIDs = g.Range(1, 2)
+		ids = ids[:nIDs]
+	}
 	for w := 0; w < W; w++ {
 		for b := 0; b < B; b++ {
 			n := g.Range(1, 4)
+			if hot {
+				n = g.Range(1, 2)
+			}
 			ops := corpus.GenOps(g, n, nIDs)
 			for i := range ops {
 				if ops[i].Kind == "index" {
